@@ -60,6 +60,9 @@ FAILS = ["none", "rdf_format", "ctrl_name", "ctrl_value", "ctrl_def", "json_obj"
 PRES = ["absent", "earlier", "dir"]
 ENTRIES = ["odml.save", "odml.save-noext", "ODMLWriter.write_file", "XMLWriter.write_file",
            "RDFWriter.write_file"]
+# histories only: one ODMLWriter per backend kept for the whole session (a writer that remembers
+# anything of an earlier, refused save must not let it leak into the next one)
+HIST_ENTRIES = ENTRIES + ["ODMLWriter.write_file(reused)", "ODMLWriter.write_file(reused)"]
 
 
 def compatible(backend, kwargs, fail, entry):
@@ -86,6 +89,11 @@ def grid(tier):
                         cases.append({"format": 1, "engine": "savegrid", "property": PROPERTY,
                                       "run_seed": seeds.H("c07grid", jdump(cell)),
                                       "steps": [cell]})
+                        if defect == "warn" and fail == "none":
+                            cell = dict(cell, wfilter="error")
+                            cases.append({"format": 1, "engine": "savegrid", "property": PROPERTY,
+                                          "run_seed": seeds.H("c07grid", jdump(cell)),
+                                          "steps": [cell]})
     return cases
 
 
@@ -207,8 +215,13 @@ def target_of(entry, backend, kwargs, name):
     return name + ext, [name + ext]
 
 
-def do_save(odml, entry, doc, path, backend, kwargs):
+def do_save(odml, entry, doc, path, backend, kwargs, writers=None):
     from odml.tools.odmlparser import ODMLWriter
+    if entry == "ODMLWriter.write_file(reused)":
+        if backend not in writers:
+            writers[backend] = ODMLWriter(backend)
+        writers[backend].write_file(doc, path, **kwargs)
+        return
     from odml.tools.xmlparser import XMLWriter
     from odml.tools.rdf_converter import RDFWriter
     if entry in ("odml.save", "odml.save-noext"):
@@ -229,6 +242,7 @@ def run_case(case):
         box = os.path.join(env.sandbox, "box")
         os.makedirs(box)
         good = {}     # path -> True once a save into it succeeded in this session
+        writers = {}  # backend -> ODMLWriter kept across the steps of a history
         for step, cell in enumerate(case["steps"]):
             res.stats["steps"] += 1
             kwargs = dict(cell["kwargs"])
@@ -263,16 +277,26 @@ def run_case(case):
             env.capture.take()
             labels = ["defect:" + cell["defect"], "fail:" + cell["fail"], "pre:" + cell["pre"]]
             fault = None
+            import warnings as _warnings
             try:
-                if cell.get("open_fault"):
-                    with fsbox.failing_open(box, cell["open_fault"]["k"],
-                                            getattr(errno, cell["open_fault"]["errno"])) as fault:
-                        do_save(odml, cell["entry"], doc, path, cell["backend"], kwargs)
-                else:
-                    do_save(odml, cell["entry"], doc, path, cell["backend"], kwargs)
+                with _warnings.catch_warnings(record=(cell.get("wfilter") != "error")) as wlist:
+                    # "error": the caller runs with warnings escalated to exceptions (-W error);
+                    # the save of a warnings-only document then raises - like any other save that
+                    # raises it must not have touched the target
+                    _warnings.simplefilter(cell.get("wfilter", "always"))
+                    if cell.get("open_fault"):
+                        with fsbox.failing_open(box, cell["open_fault"]["k"],
+                                                getattr(errno, cell["open_fault"]["errno"])) as fault:
+                            do_save(odml, cell["entry"], doc, path, cell["backend"], kwargs, writers)
+                    else:
+                        do_save(odml, cell["entry"], doc, path, cell["backend"], kwargs, writers)
+                    if wlist:
+                        env.capture.warnings.extend(wlist)
                 outcome = ("ret", None)
             except Exception as exc:
                 outcome = ("exc", type(exc).__name__, str(exc)[:160])
+            if cell.get("wfilter") == "error":
+                labels.append("warnings-as-errors")
             if fault is not None and fault.fired:
                 labels.append("open_fails_" + cell["open_fault"]["errno"])
             _, _, wrn = env.capture.take()
@@ -286,7 +310,8 @@ def run_case(case):
                 res.count("labels", lab)
             res.fault_shapes.add(seeds.H("c07", jdump({k: v for k, v in cell.items() if k != "name"}),
                                          outcome[0], outcome[1] if outcome[0] == "exc" else ""))
-            validating = cell["entry"] in ("odml.save", "odml.save-noext", "ODMLWriter.write_file")
+            validating = cell["entry"] in ("odml.save", "odml.save-noext", "ODMLWriter.write_file",
+                                           "ODMLWriter.write_file(reused)")
             vio = None
             if outcome[0] == "exc":
                 if created or changed or removed:
@@ -299,7 +324,7 @@ def run_case(case):
                            "ParserException: %s" % (cell["entry"], cell["defect"], outcome[1],
                                                     outcome[2]))
                 elif cell["defect"] == "warn" and cell["fail"] == "none" and not target_is_dir \
-                        and not (fault is not None and fault.fired):
+                        and not (fault is not None and fault.fired) and cell.get("wfilter") != "error":
                     # nothing but the warning could be the reason: "a document with warnings
                     # only is written"
                     vio = ("save.warns-and-writes", "%s refused a document that has warnings only: "
@@ -318,7 +343,7 @@ def run_case(case):
                                  for p in may_write):
                         vio = ("save.warns-and-writes", "save returned but the target %r is missing "
                                "or empty" % (may_write,))
-                    elif cell["defect"] == "warn" and validating and \
+                    elif cell["defect"] == "warn" and validating and cell.get("wfilter") != "error" and \
                             not any(c == "UserWarning" for c, _ in wrn):
                         vio = ("save.warns-and-writes", "warnings-only document was saved without "
                                "a UserWarning")
@@ -342,7 +367,7 @@ def explore(run_seed, tier, known=None):
         while True:
             backend, kwargs = rng.choice(BACKENDS)
             fail = rng.choice(FAILS + ["none", "none"])
-            entry = rng.choice(ENTRIES)
+            entry = rng.choice(HIST_ENTRIES)
             if compatible(backend, kwargs, fail, entry):
                 break
         cell = {"defect": rng.choice(DEFECTS + ["none"]), "fail": fail, "backend": backend,
@@ -350,6 +375,8 @@ def explore(run_seed, tier, known=None):
                 "entry": entry, "name": rng.choice(["f0", "f1"])}
         if rng.random() < 0.7:
             cell["variant"] = rng.randrange(1, 1000000)
+        if rng.random() < 0.15:
+            cell["wfilter"] = "error"
         if rng.random() < 0.2:
             cell["open_fault"] = {"k": 1, "errno": rng.choice(["ENOSPC", "EACCES", "EISDIR"])}
         steps.append(cell)
